@@ -76,9 +76,37 @@ where
 
     // Use newton-raphson to find the intercept
     let points  = points.iter().map(|point| point.y()).collect::<SmallVec<[f64; N]>>();
-    let root    = find_x_intercept_newton_raphson(points, t_guess);
+    let root    = find_x_intercept_newton_raphson(points.clone(), t_guess);
 
-    root
+    if root >= 0.0 && root <= 1.0 {
+        root
+    } else {
+        // Newton-Raphson has left the section (which is monotone but not straight) and is converging on the root of some other section
+        // The control polygon crosses the axis exactly once, so the ends of this section bracket its root and bisection will find it
+        find_x_intercept_bisection(points)
+    }
+}
+
+///
+/// Finds the x-intercept of a section whose first and last points are on different sides of the x-axis by bisection
+///
+fn find_x_intercept_bisection<const N: usize>(points: SmallVec<[f64; N]>) -> f64 {
+    const MAX_ITERATIONS: usize = 64;
+
+    let start_is_negative   = points[0] < 0.0;
+    let (mut low, mut high) = (0.0, 1.0);
+
+    for _ in 0..MAX_ITERATIONS {
+        let mid = (low + high) * 0.5;
+
+        if (de_casteljau_n(mid, points.clone()) < 0.0) == start_is_negative {
+            low = mid;
+        } else {
+            high = mid;
+        }
+    }
+
+    (low + high) * 0.5
 }
 
 ///
